@@ -355,6 +355,8 @@ def check(ctx: Ctx) -> None:
     # end to end: context calibrators / criteria of the second document of C01, also with DEBUG logging switched on
     from .c01 import end_to_end_second
     ctx.guard("R8.e2", "xtce/definitions.py", end_to_end_second, ctx, "R8.e2")
+    from .c01 import end_to_end_third
+    ctx.guard("R8.e3", "xtce/definitions.py", end_to_end_third, ctx, "R8.e3")
 
 
 def mutants(prog):
@@ -396,7 +398,7 @@ SPEC = PropSpec(
     pid="C08",
     title="Calibration, enumeration and boolean derivation follow XTCE; raw value kept",
     check=check,
-    floors={"R8.sel": 16, "R8.enum": 2, "R8.poly": 8, "R8.spline": 16, "R8.pure": 3, "R8.e2": 10},
+    floors={"R8.e3": 20, "R8.sel": 16, "R8.enum": 2, "R8.poly": 8, "R8.spline": 16, "R8.pure": 3, "R8.e2": 10},
     explanation=("Decision tables by abstract interpretation of NumericDataEncoding.parse_value, "
                  "Enumerated/BooleanParameterType.parse_value, PolynomialCalibrator.calibrate and "
                  "SplineCalibrator.calibrate over model packets: every subset of matching context calibrators "
